@@ -205,6 +205,14 @@ func Generate(rng *rand.Rand, caseIdx int, thorough bool, nKeys int, thr int) ([
 		if t.TTL == 0 {
 			return t.Start - uint64(1+rng.Intn(5))
 		}
+		if rng.Intn(4) == 0 {
+			// a caller whose clock is behind the lock's start timestamp (or unset):
+			// the lock cannot have expired relative to it
+			if rng.Intn(3) == 0 || t.Start < 6 {
+				return 0
+			}
+			return t.Start - uint64(1+rng.Intn(5))
+		}
 		if t.TTL > 1<<60 {
 			return t.Start + uint64(rng.Intn(500))
 		}
